@@ -321,7 +321,7 @@ def build_cases(tier):
         k += 1
         cases.append(cls(f"c18-{k:03d}", *a, **kw))
 
-    for n in (1, 2, 3) if tier == "quick" else (1, 2, 3, 4, 5):
+    for n in (1, 2, 3) if tier == "quick" else (1, 2, 3, 4):
         add(NormalizeCase, n, "realizations")
         add(NormalizeCase, n, "objectives")
     for which in ("variables", "nonlinear", "linear"):
